@@ -330,6 +330,18 @@ def pageLinks (anchors : List String) : List Link → List Link
       else l :: pageLinks anchors rest
     else l :: pageLinks anchors rest
 
+/-- The `LOGGER.error('No anchor #%s for internal URI reference', anchor_name)` calls of one page, in order. -/
+def pageErrors (anchors : List String) : List Link → List String
+  | [] => []
+  | l :: rest =>
+    if l.type == "internal" && !anchors.contains l.target then l.target :: pageErrors anchors rest
+    else pageErrors anchors rest
+
+/-- All error messages of `list(resolve_links(pages))`: one per dropped link. -/
+def resolveErrors (pages : List LPage) : List String :=
+  let names := (allAnchors pages []).2
+  pages.flatMap fun p => pageErrors names p.links
+
 /-- `list(resolve_links(pages))`. -/
 def resolveLinks (pages : List LPage) : List (List Link × List Anchor) :=
   let r := allAnchors pages []
